@@ -60,3 +60,31 @@ package consensus
 //@   opt assumecallreqs
 //@   atstore RoundState.LockedRound requires [unlockOnlyOnLaterPolka] old < vote.Round && vote.Round <= cs.Round
 //@   atstore RoundState.LockedBlock requires [lockNeverSetHere] new == nil
+
+// Precommit: a block is precommitted (and locked) only on a +2/3 prevote majority for exactly that
+// block id in this round, with the block in hand; one precommit per round; the lock is released here
+// only on a prevote majority of this round.
+//@ func (cs *ConsensusState) enterPrecommit(height uint64, round uint32)
+//@   for C03 C01
+//@   requires cs != nil
+//@   modifies *
+//@   opt noinline
+//@   opt assumecallreqs
+//@   atcall ConsensusState.signAddVote requires [precommitOnly] signedMsgType == kproto.PrecommitType
+//@   atcall ConsensusState.signAddVote requires [noSecondPrecommitInRound] cs.Height == height && cs.Round <= round && !(cs.Round == round && cs.Step >= cstypes.RoundStepPrecommit)
+//@   atcall ConsensusState.signAddVote requires [blockOnlyWithPolkaOfThisRound] hash != cmn.Hash{} ==> ok && hash == blockID.Hash && header == blockID.PartsHeader && cs.LockedRound == round && cs.LockedBlock != nil
+//@   atstore RoundState.LockedBlock requires [lockOnlyPolkaBlock] new != nil ==> ok && new == cs.ProposalBlock
+//@   atstore RoundState.LockedBlock requires [unlockOnlyOnPolka] new == nil ==> ok
+//@   atstore RoundState.LockedRound requires [lockRoundIsThisRound] (new == round || new == 0) && ok
+
+// Prevote: the locked block if there is a lock; otherwise nil, or the proposal block after it validated
+// against the node's own state.
+//@ func (cs *ConsensusState) doPrevote(height uint64, round uint32)
+//@   for C03 C01
+//@   requires cs != nil
+//@   modifies *
+//@   opt noinline
+//@   opt assumecallreqs
+//@   atcall ConsensusState.signAddVote requires [prevoteOnly] signedMsgType == kproto.PrevoteType
+//@   atcall ConsensusState.signAddVote requires [lockedBlockIsPrevoted] cs.LockedBlock != nil ==> hash == types.blockHashOf(cs.LockedBlock)
+//@   atcall ConsensusState.signAddVote requires [otherwiseValidatedProposalOrNil] cs.LockedBlock == nil && hash != cmn.Hash{} ==> cs.ProposalBlock != nil && hash == types.blockHashOf(cs.ProposalBlock) && err == nil
